@@ -371,3 +371,90 @@ def lw_prov(ctx):
     if n < 2:
         out.append(undecided('LW-prov', 'floor', 'found %d stores to notify_stream_closed, expected at least 2' % n))
     return out
+
+
+def lw_cancel(ctx):
+    """SchedulerFutureSignaller::drop turns into Canceled only a result that was never produced: its write of `result` lies on the
+    true edge of `result.is_none()`."""
+    from .ordq import calls, result_edges, edom
+    F = ctx.F
+    out = []
+    fn = F.fn('<desync::scheduler::scheduler_future::SchedulerFutureSignaller as core::ops::drop::Drop>::drop')
+    if not fn:
+        return [undecided('LW-cancel', 'anchor', 'Drop for SchedulerFutureSignaller not found')]
+    u = FieldUse(fn, SFR)
+    writes = [(bb, i) for (bb, i, v) in u.assigns.get('result', [])]
+    tests = calls(fn, 'FutureResultState::is_none')
+    key = 'SchedulerFutureSignaller::drop|cancel-only-if-none'
+    if not writes:
+        out.append(bad('LW-cancel', key, 'dropping the signaller no longer cancels an unresolved future (awaiting tasks hang)', fn=fn.name))
+    elif len(tests) != 1:
+        out.append(bad('LW-cancel', key, 'the signaller\'s drop overwrites the result without testing whether one was already delivered', fn=fn.name))
+    else:
+        e = result_edges(fn, tests[0][0])
+        true_edge = e.get('otherwise') if e else None
+        if true_edge is not None and all(edom(fn, true_edge, bb) for bb, _ in writes):
+            out.append(ok('LW-cancel', key, 'Canceled is stored only when no result exists yet', fn=fn.name))
+        else:
+            out.append(bad('LW-cancel', key, 'a delivered result can be overwritten with Canceled when the signaller is dropped (signal(self) drops it right after delivering)', fn=fn.name))
+    return out
+
+
+def lw_register(ctx):
+    """LW3: a poll that reports Pending has (re-)registered the *current* task's waker on every path to that return."""
+    from .ordq import edom
+    F = ctx.F
+    out = []
+    table = [('<desync::pipe::PipeStream as futures_core::stream::Stream>::poll_next', PSC, 'notify', 'PipeStream.core'),
+             ('<desync::scheduler::scheduler_future::SchedulerFuture as core::future::future::Future>::poll', SFR, 'waker', 'SchedulerFuture.result')]
+    for fname, adt, W, cls in table:
+        fn = F.fn(fname)
+        key = '%s|%s' % (short(fname), W)
+        if not fn:
+            out.append(undecided('LW3', key, 'anchor not found'))
+            continue
+        u = FieldUse(fn, adt)
+        stores = [bb for (bb, i, v) in u.assigns.get(W, []) if v[0] == 'agg' and v[2] == OPTION_SOME]
+        # every store takes the waker from the Context parameter of this call
+        from_ctx = True
+        for (bb, i, v) in u.assigns.get(W, []):
+            if v[0] == 'agg' and v[2] == OPTION_SOME:
+                txt = render(v)
+                if 'waker(' not in txt:
+                    from_ctx = False
+        # blocks that build Poll::Pending
+        pend = [bb for bb, b in enumerate(fn.blocks) if not b['cleanup'] for s_ in b['stmts']
+                if s_['k'] == 'assign' and s_['rv']['k'] == 'agg' and s_['rv'].get('variant') == 'Pending' and s_['rv'].get('adt') == 'core::task::poll::Poll']
+        if not stores or not pend:
+            out.append(undecided('LW3', key, 'shape not recognised (stores %d, Pending results %d)' % (len(stores), len(pend))))
+            continue
+        if 'SchedulerFuture' in fname:
+            # path-sensitive (the decision enum correlates the store with the result): taken from the protocol interpreter
+            from .rules_proto import events_of
+            missing = []
+            seen_any = False
+            for f2, _, snaps in events_of(ctx.proto, 'exit_reg'):
+                if f2 in (fname, 'desync::scheduler::scheduler_future::SchedulerFuture::drain_queue'):
+                    for (ret, reg, built) in snaps:
+                        if ret == ('enum', 'Pending') and built:
+                            seen_any = True
+                            if not reg:
+                                missing.append(f2)
+            if not seen_any:
+                out.append(undecided('LW3', key, 'no Pending exit found by the interpreter'))
+                continue
+            if missing:
+                out.append(bad('LW3', key, '%s can return Poll::Pending without having stored the current task\'s waker in %s (a stale or empty slot: the task is never woken)' % (short(missing[0]), W), fn=missing[0]))
+                continue
+        else:
+            missing = [b for b in pend if not fn.must_pass(0, {b}, set(stores))]
+            if missing:
+                out.append(bad('LW3', key, 'a path returns Poll::Pending without having stored the current task\'s waker in %s (a stale or empty slot: the task is never woken)' % W, loc=fn.loc(missing[0]), fn=fname))
+                continue
+        if False:
+            pass
+        elif not from_ctx:
+            out.append(bad('LW3', key, 'the waker stored in %s is not the one of the Context passed to this poll' % W, fn=fname))
+        else:
+            out.append(ok('LW3', key, 'every path to Poll::Pending stores context.waker() in %s' % W, fn=fname))
+    return out
